@@ -341,6 +341,9 @@ func checkGcs(c *vrun.Ctx, g *gcsCase, ex tla.Value, st *stats) {
 				}
 				switch {
 				case trunc:
+					// repaired in /repo (63c39220): the key only names the shape,
+					// known-findings.json lists it as fixed, so this is a plain VIOLATION
+
 					c.Violation(pfx+":hash-match-any:values-truncated-to-32-bits",
 						fmt.Sprintf("%s answers true for a batch none of whose %d targets matches on its own (Match and ZipMatchAny say false): the hash-set strategy keys its index by uint32(value), and N*M = %d exceeds 2^32 (N=%d, M=%d), so a target whose value differs from a member's value by a multiple of 2^32 is reported as present; batch matching is not element-wise matching",
 							s.name, len(qs), uint64(len(g.data))*g.M, len(g.data), g.M), r2)
@@ -930,7 +933,13 @@ func prepareGcs(c *vrun.Ctx) (*gcsPart, error) {
 		if li%3 == 1 {
 			P, M = 20, 1<<20
 		}
-		cases = append(cases, largeCase(rand.New(rand.NewSource(seed*104729+int64(li))), n, P, M))
+		lg := largeCase(rand.New(rand.NewSource(seed*104729+int64(li))), n, P, M)
+		if uint64(n)*M > 1<<32 && lg.alias < 0 {
+			// the regression case of the (repaired) 32-bit truncation of
+			// HashMatchAny must not silently drop out of the tiers
+			return nil, fmt.Errorf("gcs: no query value congruent to a member value modulo 2^32 found for N=%d M=%d", n, M)
+		}
+		cases = append(cases, lg)
 	}
 	c.Logf("gcs: %d shapes realised with real elements (%d not realisable in their range), %d large multisets", nShape, st.get("shape-not-realisable"), len(cases)-nShape)
 	return &gcsPart{cases: cases, check: func(exp map[int]tla.Value) error {
